@@ -15,6 +15,26 @@ import (
 
 func c13Pick(g *Rng, xs ...string) string { return xs[g.Intn(len(xs))] }
 
+// the curve functions panic on LegacyDec overflow (>315 bits); the generator only uses them as hints
+func c13SafeTokens(curve irotypes.BondingCurve, sold, net math.Int) (t math.Int, ok bool) {
+	defer func() {
+		if e := recover(); e != nil {
+			ok = false
+		}
+	}()
+	t, err := curve.TokensForExactInAmount(sold, net)
+	return t, err == nil
+}
+
+func c13SafeCost(curve irotypes.BondingCurve, x, x1 math.Int) (c math.Int) {
+	defer func() {
+		if e := recover(); e != nil {
+			c = math.ZeroInt()
+		}
+	}()
+	return curve.Cost(x, x1)
+}
+
 // random integer in [0, max]
 func c13RandBelow(g *Rng, max math.Int) math.Int {
 	if !max.IsPositive() {
@@ -220,7 +240,7 @@ func c13Trace(c *c13, g *Rng, idx int) {
 	m, nn, cc := c13Curve(g)
 	curve := irotypes.BondingCurve{M: c13Dec(m), N: c13Dec(nn), C: c13Dec(cc), RollappDenomDecimals: 18, LiquidityDenomDecimals: uint64(L)}
 	// liquidity needed to buy everything, for funding
-	full := curve.Cost(math.ZeroInt(), genAlloc)
+	full := c13SafeCost(curve, math.ZeroInt(), genAlloc)
 	budget := c13Max(full.MulRaw(3), p10(L+2))
 	liqPart := minLiqPart
 	if g.Chance(60) {
@@ -256,7 +276,7 @@ func c13Trace(c *c13, g *Rng, idx int) {
 		c.do(fmt.Sprintf("fund 0 %s", budget))
 	} else {
 		c.r.Hit("create/owner-underfunded")
-		c.do(fmt.Sprintf("fund 0 %s", c13Around(g, curve.Cost(math.ZeroInt(), creationFee))))
+		c.do(fmt.Sprintf("fund 0 %s", c13Around(g, c13SafeCost(curve, math.ZeroInt(), creationFee))))
 	}
 	// perturbed creates first (all must be rejected and leave no trace)
 	if g.Chance(30) {
@@ -373,7 +393,7 @@ func c13Trace(c *c13, g *Rng, idx int) {
 			}
 			maxCost := c13Huge
 			if g.Chance(25) && amt.IsPositive() && p.SoldAmt.Add(amt).LTE(p.MaxAmountToSell) {
-				cost := curve.Cost(p.SoldAmt, p.SoldAmt.Add(amt))
+				cost := c13SafeCost(curve, p.SoldAmt, p.SoldAmt.Add(amt))
 				if tot, _, err := c.k().ApplyTakerFee(cost, c.takerFee, true); err == nil {
 					maxCost = tot
 					if g.Chance(40) {
@@ -410,7 +430,7 @@ func c13Trace(c *c13, g *Rng, idx int) {
 			minTok := math.OneInt()
 			if g.Chance(20) && spend.IsPositive() {
 				if net, _, err := c.k().ApplyTakerFee(spend, c.takerFee, false); err == nil {
-					if t, err := curve.TokensForExactInAmount(p.SoldAmt, net); err == nil && t.IsPositive() {
+					if t, ok := c13SafeTokens(curve, p.SoldAmt, net); ok && t.IsPositive() {
 						minTok = t
 						if g.Chance(40) {
 							minTok = t.AddRaw(1)
@@ -438,7 +458,7 @@ func c13Trace(c *c13, g *Rng, idx int) {
 			}
 			minInc := math.OneInt()
 			if g.Chance(25) && amt.IsPositive() && amt.LTE(p.SoldAmt) {
-				cost := curve.Cost(p.SoldAmt.Sub(amt), p.SoldAmt)
+				cost := c13SafeCost(curve, p.SoldAmt.Sub(amt), p.SoldAmt)
 				if net, _, err := c.k().ApplyTakerFee(cost, c.takerFee, false); err == nil {
 					minInc = net
 					if g.Chance(40) {
